@@ -452,7 +452,7 @@ func init() {
 	copies := []string{"(*graph.DenseGraph).Copy", "(*graph.DenseGraph).InducedSubgraph", "(graph.SparseGraph).Copy", "(graph.SparseGraph).InducedSubgraph"}
 	register(&propDef{
 		id:          "C05",
-		explanation: "Decides three structural clauses of the editable graphs: COUPLE (in every function of package graph that directly mutates adjacency storage reached from a parameter, every path through the mutation also writes NumberOfEdges and DegreeSequence of that graph; AddEdge/RemoveEdge of both representations update the count once, each endpoint's degree once, with the sign of the adjacency change), FRESH/PURE (Copy and InducedSubgraph of both representations return memory that reaches neither receiver nor argument, and write nothing reachable from them), TRI (every element index into DenseGraph.Edges in graph_dense.go is a lower-triangle cell J(J-1)/2+I with 0<=I<J proved by E-PROVE where the operands are locally controlled, a running index over a J/I nest, or a linear sweep). Does not decide agreement with the adjacency-set model under arbitrary histories.",
+		explanation: "Decides three structural clauses of the editable graphs: COUPLE (in every function of package graph that directly mutates adjacency storage reached from a parameter, every path through the mutation also writes NumberOfEdges and DegreeSequence of that graph; AddEdge/RemoveEdge of both representations update the count once, each endpoint's degree once, with the sign of the adjacency change), FRESH/PURE (Copy and InducedSubgraph of both representations return memory that reaches neither receiver nor argument, and write nothing reachable from them), ROWS (every neighbour list stored into a SparseGraph table owns its backing array: no window into an array shared with other rows), TRI (every element index into DenseGraph.Edges in graph_dense.go is a lower-triangle cell J(J-1)/2+I with 0<=I<J proved by E-PROVE where the operands are locally controlled, a running index over a J/I nest, or a linear sweep). Does not decide agreement with the adjacency-set model under arbitrary histories.",
 		notDecided:  []string{"that observers agree with an adjacency-set model after every edit history (e.g. the compaction arithmetic of dense RemoveVertex, duplicate neighbours passed to AddVertex)", "dense/sparse agreement", "InducedSubgraph(V) maps vertex i to V[i]"},
 		assumptions: []string{"vertex numbers passed as parameters are non-negative (callers' contract)", "neighbour lists / codes loaded from memory satisfy their range preconditions (recorded in the evidence, not judged)"},
 		run: func(c *Ctx, tier string) []*RuleResult {
@@ -469,7 +469,7 @@ func init() {
 			}
 			tri := ruleTriX(c, inFiles("graph_dense.go"), "TRI", true)
 			tri.MinInst = 10
-			return []*RuleResult{cp, fr, tri}
+			return []*RuleResult{cp, fr, tri, ruleRows(c)}
 		},
 		controls: func(ctl *Ctx) []*RuleResult {
 			cp := ruleCouple(ctl, map[string]bool{"ctl/graph": true})
@@ -480,12 +480,12 @@ func init() {
 			freshResult(ctl, fr, ctl.Fn("(*graph.DenseGraph).GoodCopy"), 0, nil, nil, "is a deep copy")
 			tri := ruleTri(ctl, func(string) bool { return true }, "TRI")
 			lit := ruleLiteral(ctl)
-			return []*RuleResult{cp, es, fr, tri, lit}
+			return []*RuleResult{cp, es, fr, tri, lit, ruleRows(ctl)}
 		},
 	})
 	register(&propDef{
 		id:          "C06",
-		explanation: "Decides: FRESH (the graphs returned by NewDense and NewSparse reach no memory of the caller's edges / neighbourhoods slices, so later writes by the caller cannot change them), LITERAL (every DenseGraph/SparseGraph composite literal in the module that sets the adjacency field also sets NumberOfVertices, NumberOfEdges and DegreeSequence), TRI (every hand-written index into packed-triangle storage in the generators, transformations, decoders and the search is a lower-triangle cell: closed form with 0<=I<J proved for all accepted parameter values when the operands are locally controlled, running index, or linear sweep), and classifies each constructor as counted-by-construction or hand-filled. Does not decide that each named family has exactly the edges of its definition.",
+		explanation: "Decides: FRESH (the graphs returned by NewDense and NewSparse reach no memory of the caller's edges / neighbourhoods slices, so later writes by the caller cannot change them), LITERAL (every DenseGraph/SparseGraph composite literal in the module that sets the adjacency field also sets NumberOfVertices, NumberOfEdges and DegreeSequence), OWNER (no function other than SparseGraph's own edit methods writes the fields of an existing SparseGraph, whether received as a parameter or obtained from a constructor call, so decoders cannot bypass the row invariants), TRI (every hand-written index into packed-triangle storage in the generators, transformations, decoders and the search is a lower-triangle cell: closed form with 0<=I<J proved for all accepted parameter values when the operands are locally controlled, running index, or linear sweep), and classifies each constructor as counted-by-construction or hand-filled. Does not decide that each named family has exactly the edges of its definition.",
 		notDecided:  []string{"that each named family has exactly the edges its definition prescribes", "agreement of hand-filled counts with adjacency (CompleteGraph, CompletePartiteGraph, Path, Star, Cycle, ComplementDense, InducedSubgraph, MulticodeDecode): a value question", "complement.IsEdge(i,i), Path(1) degree, Path(0)/Star(0) M=-1, MulticodeDecode degrees[s[i]]"},
 		assumptions: []string{"vertex numbers passed as parameters are non-negative", "data-derived operands (Pruefer code elements, Multicode bytes, neighbour lists, part sizes) satisfy their range preconditions (recorded, not judged)"},
 		run: func(c *Ctx, tier string) []*RuleResult {
@@ -498,7 +498,9 @@ func init() {
 			noWrites(c, fr, ns, nil, "its arguments")
 			tri := ruleTri(c, func(file string) bool { return filepath.Base(file) != "graph_dense.go" }, "TRI")
 			tri.MinInst = 20
-			return []*RuleResult{fr, ruleLiteral(c), tri, ruleCtorClass(c)}
+			own := ruleOwner(c, "graph", "SparseGraph", []string{"(*graph.SparseGraph).AddVertex", "(*graph.SparseGraph).RemoveVertex", "(*graph.SparseGraph).AddEdge", "(*graph.SparseGraph).RemoveEdge"})
+			own.MinInst = 4
+			return []*RuleResult{fr, ruleLiteral(c), tri, own, ruleCtorClass(c)}
 		},
 		controls: func(ctl *Ctx) []*RuleResult {
 			fr := &RuleResult{Rule: "FRESH"}
@@ -542,6 +544,183 @@ func ruleCtorClass(c *Ctx) *RuleResult {
 			r.inst("%s: delegates to another constructor", c.short(fn))
 		}
 		r.oblig(true)
+	}
+	return r
+}
+
+// ruleRows: each neighbour list stored into a SparseGraph's Neighbourhoods must own its backing
+// array: the stored slice must not be carved (s[a:b] without a capacity limit) out of an array
+// that was allocated outside the loop iteration storing it, because AddVertex appends to rows in place.
+func ruleRows(c *Ctx) *RuleResult {
+	r := &RuleResult{Rule: "ROWS", Doc: "every slice stored as a row of a [](sorted) neighbour-list table is a whole allocation of its own (or is capacity-limited), not a window into an array shared with other rows: rows are later extended with append", MinInst: 3}
+	loopsCache := map[*ssa.Function]map[*ssa.BasicBlock]map[*ssa.BasicBlock]bool{}
+	// the table type of SparseGraph.Neighbourhoods
+	var tableT types.Type
+	if so := c.Pkg("graph").Types.Scope().Lookup("SparseGraph"); so != nil {
+		if st, ok := so.Type().Underlying().(*types.Struct); ok {
+			for i := 0; i < st.NumFields(); i++ {
+				if st.Field(i).Name() == "Neighbourhoods" {
+					tableT = st.Field(i).Type()
+				}
+			}
+		}
+	}
+	if tableT == nil {
+		failf("graph.SparseGraph.Neighbourhoods not found")
+	}
+	rowT := func(t types.Type) bool { return types.Identical(t, tableT) }
+	for _, fn := range c.Funcs {
+		p := fnPkg(fn)
+		if p == nil || p.Pkg.Path() != c.Mod+"/graph" || fn.Synthetic != "" {
+			continue
+		}
+		for _, b := range fn.Blocks {
+			for _, in := range b.Instrs {
+				st, ok := in.(*ssa.Store)
+				if !ok {
+					continue
+				}
+				ia, ok := st.Addr.(*ssa.IndexAddr)
+				if !ok || !rowT(ia.X.Type()) {
+					continue
+				}
+				desc := c.srcAt(ia.Pos())
+				if desc == "" {
+					desc = valName(ia)
+				}
+				name := c.short(fn)
+				v := st.Val
+				for {
+					if ct, ok := v.(*ssa.ChangeType); ok {
+						v = ct.X
+						continue
+					}
+					break
+				}
+				sl, isSlice := v.(*ssa.Slice)
+				if !isSlice || sl.Max != nil {
+					r.inst("%s: row %s = %s", name, desc, valName(v))
+					r.oblig(true)
+					continue
+				}
+				// a window s[a:b]: fine only if it is the whole of an array allocated in this very iteration
+				base := sl.X
+				var allocAt *ssa.BasicBlock
+				switch a := base.(type) {
+				case *ssa.MakeSlice:
+					allocAt = a.Block()
+				case *ssa.Alloc: // make([]T, const) and slice literals are an array allocation plus a[:]
+					allocAt = a.Block()
+				}
+				loops := loopsCache[fn]
+				if loops == nil {
+					loops = loopsOf(fn)
+					loopsCache[fn] = loops
+				}
+				sameIter := false
+				if allocAt != nil {
+					sameIter = true
+					for _, body := range loops {
+						if body[b] && !body[allocAt] {
+							sameIter = false
+						}
+					}
+				}
+				// re-slicing the row's own previous value (g.Neighbourhoods[v] = g.Neighbourhoods[v][:k]) keeps ownership
+				if ld, ok := base.(*ssa.UnOp); ok {
+					if ia2, ok := ld.X.(*ssa.IndexAddr); ok && rowT(ia2.X.Type()) {
+						sameIter = true
+					}
+				}
+				r.inst("%s: row %s = window %s", name, desc, c.srcAt(sl.Pos()))
+				r.oblig(sameIter)
+				if !sameIter {
+					r.find(name+":row "+desc+" shares its array", c.instrPos(st), "%s stores %s, a window of an array that other rows are carved from as well, with spare capacity behind it: a later append to this row (AddVertex) overwrites the next row", name, c.srcAt(sl.Pos()))
+				}
+			}
+		}
+	}
+	return r
+}
+
+// ruleOwner: an existing value of the struct type (received as a parameter, or obtained from a
+// module call in the same function) has its fields written only inside the listed methods; any
+// other function must change it by calling them.
+func ruleOwner(c *Ctx, pkgRel, typeName string, methods []string) *RuleResult {
+	r := &RuleResult{Rule: "OWNER", Doc: "only the representation's own edit methods write the fields of an existing " + typeName + " (a parameter or the result of a constructor call): they alone keep rows sorted, duplicate-free, loop-free and symmetric, so decoders and transformations must go through them", MinInst: len(methods)}
+	E := c.Eff()
+	T := c.Pkg(pkgRel).Types.Scope().Lookup(typeName).Type()
+	allowed := map[*ssa.Function]bool{}
+	for _, m := range methods {
+		allowed[c.Fn(m)] = true
+	}
+	isT := func(t types.Type) bool {
+		if t == nil {
+			return false
+		}
+		if p, ok := t.Underlying().(*types.Pointer); ok {
+			t = p.Elem()
+		}
+		return types.Identical(t, T)
+	}
+	for _, fn := range c.Funcs {
+		if fn.Synthetic != "" {
+			continue
+		}
+		f := E.fas[fn]
+		// objects of the type that exist before / outside this function's own construction
+		target := map[*obj]bool{}
+		for _, o := range f.objs {
+			if o.root >= 0 && o.root < rFree {
+				for a := o; a != nil; a = a.parent {
+					if isT(a.typ) {
+						target[o] = true
+					}
+				}
+			}
+		}
+		for v, so := range f.site {
+			if call, ok := v.(*ssa.Call); ok {
+				if cal := call.Call.StaticCallee(); cal != nil && c.inModule(cal) && isT(call.Type()) {
+					target[so] = true
+				}
+			}
+		}
+		if len(target) == 0 {
+			continue
+		}
+		name := c.short(fn)
+		if allowed[fn] {
+			r.inst("%s: edit method (may write)", name)
+			r.oblig(true)
+			continue
+		}
+		bad := ""
+		var badIn ssa.Instruction
+		for _, b := range fn.Blocks {
+			for _, in := range b.Instrs {
+				if call, ok := in.(*ssa.Call); ok {
+					if cal := call.Call.StaticCallee(); cal != nil && allowed[cal] {
+						continue
+					}
+					if call.Call.IsInvoke() {
+						continue // through the EditableGraph interface: resolved to the edit methods
+					}
+				}
+				for l := range f.iw[in] {
+					if target[l.o] {
+						bad = l.p
+						badIn = in
+					}
+				}
+			}
+		}
+		if bad == "" && badIn == nil {
+			continue
+		}
+		r.inst("%s: writes %s fields directly", name, typeName)
+		r.oblig(false)
+		r.find(name+":writes "+typeName+" directly", c.instrPos(badIn), "%s writes a field of an existing %s (%s) itself instead of going through %v: the rows' invariants (sorted, duplicate-free, loop-free, symmetric) and the cached counts are only maintained by those methods", name, typeName, instrDesc(c, badIn), methods)
 	}
 	return r
 }
